@@ -91,7 +91,7 @@ func (c *Client) recvLoop(idx int, s *net.UDPConn) {
 		}
 		c.mu.Lock()
 		c.replies = append(c.replies, r)
-		if r.Err == nil && r.Tag.Session == c.ID {
+		if r.Err == nil && r.Tag.Session == c.ID && r.Tag.Kind == KindReply {
 			c.got[r.Tag.Seq]++
 		}
 		c.cond.Broadcast()
